@@ -362,7 +362,30 @@ def one_mdp_run(case):
     sec = case.get("second")
     if sec and "skipped" not in out:
         # the SAME policy object again: on the same MDP object, or on a second MDP with the same labels
-        mdp2 = mdp if sec.get("mdp") is None else build_mdp14(case, m=sec["mdp"], lab=lab)
+        if sec.get("mdp_inplace"):
+            # update the objects the MDP / policy hand out IN PLACE (DictDistribution is a dict: item assignment)
+            m2 = sec["mdp"]
+            for k, row in m2["trans"].items():
+                s_, a_ = map(int, k.split(","))
+                d = mdp._c14_trans[(lab.S[s_], lab.A[a_])]
+                for ns, p in row:
+                    d[lab.S[ns]] = num(case, p)
+            mdp._c14_rew.clear()
+            mdp._c14_rew.update({(lab.S[s_], lab.A[a_], lab.S[ns]): num(case, r)
+                                 for (s_, a_, ns), r in ((tuple(map(int, k.split(","))), r) for k, r in m2["reward"].items())})
+            for s_, x in enumerate(m2["absorbing"]):
+                mdp._c14_absorbing[lab.S[s_]] = bool(x)
+            for s_, p in m2["init"]:
+                mdp._c14_init[lab.S[s_]] = num(case, p)
+            if sec.get("policy"):
+                for s_, d in enumerate(sec["policy"]["dists"]):
+                    if d["t"] == "dict":
+                        obj = pol._c14_tbl[lab.S[s_]]
+                        for x, w in d["items"]:
+                            obj[lab.A[x]] = fl(w)
+            mdp2 = mdp
+        else:
+            mdp2 = mdp if sec.get("mdp") is None else build_mdp14(case, m=sec["mdp"], lab=lab)
         out["second"] = run_once(pol, mdp2, lab, case, sec)
         out["second"].pop("_res", None)
         # the FIRST result, queried again after the second call
@@ -427,7 +450,22 @@ def one_mdp_eval(case):
                 "occupancy": [[lab.sid(s), fj(ev.state_occupancy[s])] for s in occ_sl],
                 "initial_value": fj(ev.initial_value)}
     first_tables = tables(ev)
-    rollouts = [traj_json(r, lab) for r in recs]
+    if case.get("high_volume"):
+        # identical roll-outs are reported once, with their multiplicity
+        groups, order = {}, []
+        for r in recs:
+            key = tuple((repr(st.get("state")), repr(st.get("action")), repr(st.get("next_state")), st.get("reward")) for st in r.steps)
+            if key not in groups:
+                groups[key] = [r, 0]
+                order.append(key)
+            groups[key][1] += 1
+        rollouts = []
+        for key in order:
+            j = traj_json(groups[key][0], lab)
+            j["mult"] = groups[key][1]
+            rollouts.append(j)
+    else:
+        rollouts = [traj_json(r, lab) for r in recs]
     stable = None
     if opts.get("second_eval"):
         # a second evaluation with the same policy object (other n, cap, stream); then the FIRST result is read again
